@@ -2,7 +2,7 @@
     Property theorems only; each is closed by [exact] of a lemma of [Proofs/]. *)
 From Coq Require Import List ZArith NArith Bool Sorting.Sorted.
 From EDS Require Import Model.Objects Model.Fitness Model.PodSpec Model.Default Model.Canary Model.EdsLogic Model.EdsReconcile
-     Proofs.Lists Proofs.RollingProofs Proofs.EdsInv Proofs.C15Proofs Proofs.C15Sync.
+     Proofs.Lists Proofs.RollingProofs Proofs.EdsInv Proofs.C15Proofs Proofs.C15Sync Proofs.C15Spread.
 Import ListNotations.
 Open Scope Z_scope.
 
@@ -76,6 +76,21 @@ Theorem C15_least_restarts : forall t nb nodes pods previous a m,
   node_restarts pods a <= node_restarts pods (n_name m).
 Proof. exact select_least_restarts. Qed.
 Print Assumptions C15_least_restarts.
+
+(** "spreading": with nodeAntiAffinityKeys, one selection never brings the number of canary nodes carrying one value of
+    the keys above the quota - the canary size divided by the number of distinct values among the candidate nodes,
+    rounded up - unless the nodes kept from the previous selection already exceeded it (kept nodes are never dropped for
+    balance). [cnt keys nodes l v] = the nodes carrying value [v] whose name is on [l]. *)
+Theorem C15_spreading : forall t keys nb nodes pods previous v,
+  keys <> [] -> NoDup (map n_name nodes) ->
+  let sorted := sort_by (fun n => node_restarts pods (n_name n)) nodes in
+  let still_valid := filter (fun nn => match find (fun n => N.eqb (n_name n) nn) sorted with
+                                       | Some n => fit t n | None => false end) previous in
+  let final := fst (select_nodes t keys nb nodes pods previous) in
+  let values := zlen (aa_init keys sorted still_valid) in
+  cnt keys nodes final v <= Z.max (cnt keys nodes still_valid v) (Z.quot (nb + values - 1) values).
+Proof. exact select_spreads. Qed.
+Print Assumptions C15_spreading.
 
 (** a percentage of replicas resolves rounding up (against status.desired of the ExtendedDaemonSet,
     after the repair of D7) *)
